@@ -2,6 +2,7 @@ package info
 
 import (
 	"encoding/json"
+	"sort"
 
 	"github.com/simimpact/srsim/pkg/engine/prop"
 	"github.com/simimpact/srsim/pkg/key"
@@ -403,11 +404,13 @@ func (stats *Stats) MarshalJSON() ([]byte, error) {
 	for _, v := range props {
 		loggedProps = append(loggedProps, v)
 	}
+	sort.Slice(loggedProps, func(i, j int) bool { return loggedProps[i].Prop < loggedProps[j].Prop })
 
 	loggedDebuffRES := make([]*LoggedDebuffRES, 0, len(debuffRES))
 	for _, v := range debuffRES {
 		loggedDebuffRES = append(loggedDebuffRES, v)
 	}
+	sort.Slice(loggedDebuffRES, func(i, j int) bool { return loggedDebuffRES[i].Flag < loggedDebuffRES[j].Flag })
 
 	out := StatsEncoded{
 		ID:           stats.ID(),
